@@ -59,6 +59,19 @@ def _init_reshape(base_shape, value):
     return res, r, c
 
 
+def _fit_array(value, shape):
+    """
+    Fits a 2D array into a range of the given shape as Excel does: a single
+    row (column) is repeated along the rows (columns), the surplus is dropped,
+    and the cells that are not reached take the default value (i.e., #N/A).
+    """
+    res = _init_reshape(shape, value)[0]
+    (r, c), (nr, nc) = value.shape, shape
+    res[:nr if r == 1 else min(r, nr), :nc if c == 1 else min(c, nc)] = \
+        np.asarray(value)[:min(r, nr), :min(c, nc)]
+    return res
+
+
 class Array(np.ndarray):
     _default = Error.errors['#N/A']
 
@@ -69,12 +82,12 @@ class Array(np.ndarray):
             # noinspection PyArgumentList
             return super(Array, self).reshape(shape, *shapes, order=order)
         except ValueError:
-            res, r, c = _init_reshape(shape, self)
-            try:
-                res[:r, :c] = self
-            except ValueError:
+            if self.ndim != 2 or self._collapse_value is not None and \
+                    tuple(shape) == (1, 1):
+                res, r, c = _init_reshape(shape, self)
                 res[:, :] = self.collapse(shape)
-            return res
+                return res
+            return _fit_array(self, shape)
 
     def collapse(self, shape):
         if self._collapse_value is not None and \
